@@ -363,14 +363,6 @@ Fixpoint no_ties (l : list sacc) : bool :=
 Definition has_staging (c : c17_case) : bool :=
   existsb (fun b => existsb s_stg (spec_acc c pin_cache b)) (k_binds c).
 
-Definition c17_region (c : c17_case) : Z :=
-  match k_caps c with
-  | [] => 0
-  | _ => if forallb (fun b => no_ties (spec_acc c pin_cache b)) (k_binds c)
-         then if Nat.leb 2 (length (k_caps c)) && has_staging c then 2 else 0
-         else 1
-  end.
-
 (* ------------------------------------------------------------------ holds *)
 Definition vl (v : V) : list V := match v with VL l => l | VZ _ => [] end.
 Definition vnth (n : nat) (v : V) : V := nth n (vl v) (VZ (-7)).
@@ -434,6 +426,20 @@ Definition c17_holds (c : c17_case) (o : V) : bool :=
   && V_eqb (vnth 1 o) (spec_comb_V c)
   && buffet_ok c (vnth 2 o)
   && cache_ok c (vnth 3 o).
+
+(* region 1: two lines of one binding with an equal next-use stamp (F-C17-cache-stamp-ties).
+   region 2, exactly: not region 1, and the fills of the faithful model of cacheTraffic increase
+   somewhere over the case's ascending capacities (F-C17-cache-pins-nonmonotone) — the model is
+   the image of the code, so this is "the code's fills increase with the capacity on this case";
+   it needs a staging-area access (C17_region2_needs_staging).  Every other violation on such a
+   case is still reported: only the cases whose own model totals are not monotone are excused. *)
+Definition c17_region (c : c17_case) : Z :=
+  match k_caps c with
+  | [] => 0
+  | _ => if forallb (fun b => no_ties (spec_acc c pin_cache b)) (k_binds c)
+         then if non_increasing (map total_reads (map (model_cache c) (k_caps c))) then 0 else 2
+         else 1
+  end.
 
 Definition c17_checker : checker c17_case :=
   {| model := c17_model; holds := c17_holds; region := c17_region |}.
